@@ -51,6 +51,9 @@ var bcfgs = []bcfg{
 	{100 * time.Millisecond, 2}, // 100ms 200ms 400ms 800ms 1.6s 3.2s 4s ...
 	{time.Second, 3},            // 1s 3s 4s 4s ... (reaches the T5 ceiling after two failures)
 	{6 * time.Second, 1.5},      // initial > T5: flat 4s
+	// long outages only (an uncapped product of these overflows int64 nanoseconds after 10 / 21 failures)
+	{time.Second, 10},
+	{5 * time.Millisecond, 4},
 }
 
 // attempt is one invocation of the dialer (active) or of the listen function (passive).
